@@ -103,10 +103,12 @@ pub fn pool() -> &'static Pool {
                 torsion.push(t);
             }
         }
-        // G1 points on the curve but outside the subgroup, turned into torsion points
+        // G1 points on the curve but outside the subgroup, turned into torsion points T;
+        // shifted keys come in partner pairs (P_a + T, P_b - T): each is outside the subgroup,
+        // their sum is inside
         let mut shifted_pks = vec![];
         let mut tries = 0;
-        while shifted_pks.len() < 3 && tries < 4096 {
+        while shifted_pks.len() < 4 && tries < 4096 {
             tries += 1;
             let mut b = [0u8; 48];
             b.copy_from_slice(&rng.bytes(48));
@@ -116,10 +118,15 @@ pub fn pool() -> &'static Pool {
                     let mut t = pt.clone();
                     t.scalar_multiply(&r_minus_1);
                     t += &pt;
-                    let k = shifted_pks.len() % NKEYS;
-                    let shifted = &pks[k] + &t;
-                    if !t.is_inf() && !shifted.is_valid() {
-                        shifted_pks.push((shifted, k));
+                    let mut minus_t = t.clone();
+                    minus_t.negate();
+                    let ka = shifted_pks.len() % NKEYS;
+                    let kb = (shifted_pks.len() + 1) % NKEYS;
+                    let plus = &pks[ka] + &t;
+                    let minus = &pks[kb] + &minus_t;
+                    if !t.is_inf() && !plus.is_valid() && !minus.is_valid() {
+                        shifted_pks.push((plus, ka));
+                        shifted_pks.push((minus, kb));
                     }
                 }
             }
@@ -629,16 +636,21 @@ impl C15 {
 }
 
 fn gen_pairs(rng: &mut Rng, keyspace: usize, n: usize, allow_inf: bool) -> Vec<Pair> {
-    (0..n)
-        .map(|_| {
-            let k = if allow_inf && rng.chance(1, 12) {
-                if rng.chance(1, 3) { INF + 1 + rng.below(3) as u8 } else { INF }
-            } else {
-                rng.usize_below(keyspace) as u8
-            };
-            (k, rng.usize_below(NMSGS) as u8)
-        })
-        .collect()
+    let mut v: Vec<Pair> = vec![];
+    while v.len() < n {
+        let k = if allow_inf && rng.chance(1, 12) {
+            if rng.chance(1, 3) { INF + 1 + rng.below(4) as u8 } else { INF }
+        } else {
+            rng.usize_below(keyspace) as u8
+        };
+        v.push((k, rng.usize_below(NMSGS) as u8));
+        // a key shifted by +T often comes with its partner shifted by -T
+        if k > INF && v.len() < n && rng.chance(1, 2) {
+            let partner = INF + 1 + (((k - INF - 1) as usize) ^ 1) as u8;
+            v.push((partner, rng.usize_below(NMSGS) as u8));
+        }
+    }
+    v
 }
 
 pub fn gen_query(rng: &mut Rng, keyspace: usize) -> Query {
